@@ -269,6 +269,17 @@ let c16 lineno (f : string array) =
   let rb = List.map bytes_of_hex (split_on ',' f.(10)) and rk = List.map bytes_of_hex (split_on ',' f.(11)) in
   verdict lineno (M.c16_model mode host path lb lk rb rk) (M.c16_spec lb lk same rb rk)
 
+(* c09 R kind cfg status code panic hung ishead bodylen iserrdoc desc hdrs body panicmsg *)
+let c09 lineno (f : string array) =
+  match f.(1) with
+  | "R" ->
+    let r = M.c09_response_ok (z_of_int (int_of_string f.(4))) (bytes_of_hex f.(5)) (bool_of_field f.(6)) (bool_of_field f.(7))
+        (bool_of_field f.(8)) (z_of_int (int_of_string f.(9))) (bool_of_field f.(10)) in
+    let strs = List.map string_of_bytes r in
+    if strs = [] then print_string "OK\n"
+    else Printf.printf "FAIL\t%d\tmodel=-\tspec=%s\n" lineno (String.concat "," strs)
+  | _ -> hist lineno f
+
 let () =
   let lineno = ref 0 in
   (try
@@ -281,6 +292,7 @@ let () =
        | "c17" -> c17 !lineno f
        | "c12" -> c12 !lineno f
        | "c16" -> c16 !lineno f
+       | "c09" -> c09 !lineno f
        | "c01" | "c02" | "c03" | "c04" | "c05" | "c06" | "c08" | "c10" | "c13" | "c14" | "c15" -> hist !lineno f
        | "#" -> print_string "OK\n"
        | k -> failwith ("unknown case kind " ^ k))
